@@ -20,7 +20,10 @@ section Order
 variable {α : Type} [LT α] [LE α] [DecidableLT α] [DecidableLE α] [DecidableEq α]
   [Std.IsLinearOrder α] [Std.LawfulOrderLT α]
 
+/-- strictly increasing: every earlier element is `<` every later one -/
 def StrictInc (arr : List α) : Prop := arr.Pairwise (· < ·)
+
+/-- the number of edges not greater than `v` -/
 def countLE (arr : List α) (v : α) : Nat := arr.countP (fun e => decide (e ≤ v))
 
 theorem lt_trans' {a b c : α} (h1 : a < b) (h2 : b < c) : a < c := by grind
@@ -438,10 +441,6 @@ theorem fillWalk_shape (w : β) : ∀ (idxs : List Int) (ds : List Nat) (a a' : 
             rcases List.mem_or_eq_of_mem_set hy with hy | rfl
             · exact hall y hy
             · have := hall _ (List.mem_of_getElem? hc)
-              obtain ⟨c', hc'⟩ := hasShape_nil.1 (by
-                cases ds with
-                | nil => exact this
-                | cons d2 ds => exact absurd this hasShape_leaf_cons)
               cases ds with
               | nil => simp [NArr.HasShape]
               | cons d2 ds => exact absurd this hasShape_leaf_cons
